@@ -128,11 +128,24 @@ def header_candidates(o, seed):
         yield {"payload": hdr.hex()}
 
 
+M_ = "pyrtcm.rtcmmessage.RTCMMessage"
+
+
 def generic_replay(o, seed):
     """Dispatch on the function the obligation belongs to."""
     n = (o.get("unit") or o["name"]).split("[")[0]
     if n.startswith(("crc.", "lemma", "C")) or "." not in n:
         n = o["name"]
+    if n.startswith("client."):
+        m = {"client.roundtrip_serialize_parse": M_ + ".serialize", "client.stub_serializes_to_same_frame": M_ + ".serialize",
+             "client.crc_split": "pyrtcm.rtcmhelpers.calc_crc24q", "client.two_reads": "pyrtcm.rtcmreader.RTCMReader.read",
+             "client.assignments_leave_message_unchanged": M_ + ".__setattr__",
+             "client.parse_ignores_checksum_when_not_validating": "pyrtcm.rtcmreader.RTCMReader.parse"}
+        n = m.get(n, n)
+    if "socketwrapper" in n:
+        from props import C11, C12
+        r = C11.replay(o, seed)
+        return r if r.get("reproduced") or "dechunk" not in n else C12.replay(o, seed)
     if n.endswith("RTCMReader.parse"):
         return try_candidates("parse_static", parse_candidates(o, seed), key=lambda i, r: "parse")
     if "rtcmreader" in n or "ext.Stream" in n:
